@@ -52,6 +52,48 @@ func okGuardSwitchNotOr(x int, y bool) {
 	}
 }
 
+// the guard extracted into a predicate helper (with a differently named parameter)
+func isSmall(v int) bool { return v < 10 }
+
+func notBig(v int) bool {
+	if v >= 10 {
+		return false
+	}
+	return true
+}
+
+func maybeSmall(v int, y bool) bool {
+	if y {
+		return true
+	}
+	return v < 10
+}
+
+func okGuardPredicate(x int) {
+	if isSmall(x) {
+		mark()
+	}
+}
+
+func okGuardPredicateBranchy(x int) {
+	if !notBig(x) {
+		return
+	}
+	mark()
+}
+
+func badGuardPredicateWeak(x int, y bool) {
+	if maybeSmall(x, y) {
+		mark()
+	}
+}
+
+func badGuardPredicateOtherArg(x int, z int) {
+	if isSmall(z) {
+		mark()
+	}
+}
+
 func badGuardOr(x int, y bool) {
 	if x < 10 || y {
 		mark()
@@ -447,4 +489,28 @@ func badMutInputInPlace(in []int) []int {
 func badMutInputField(h *hdr) int64 {
 	h.Length++
 	return h.Length
+}
+
+// ---------------------------------------------------------------- the caller checks, the helper slices
+
+func head4(p []byte) []byte { return p[:4] }
+
+func okBoundsCallerChecks(p []byte) []byte {
+	if len(p) < 4 {
+		return nil
+	}
+	return head4(p)
+}
+
+func badBoundsHead8NotAllCallersCheck(p []byte) []byte { return p[:8] }
+
+func okBoundsCallerChecks8(p []byte) []byte {
+	if len(p) >= 8 {
+		return badBoundsHead8NotAllCallersCheck(p)
+	}
+	return nil
+}
+
+func uncheckedCaller(p []byte) []byte {
+	return badBoundsHead8NotAllCallersCheck(p)
 }
